@@ -83,6 +83,7 @@ Fixpoint walk (ls : list layer) (i : nat) (ds : list dentry) (env : list req) (r
       match nth_error ds d with
       | None => walk rest (S i) ds env r
       | Some e =>
+        if C10.refused (d_st e) (C10.mkreq (q_cseq r) (q_id r) (is_ack r)) then walk rest (S i) ds env r else
         let '(e', reqs, parked) := deliver d e env r in
         (set_nth ds d e',
          if parked then [Parked (q_id r)]
@@ -116,7 +117,8 @@ Fixpoint handled (ls : list layer) (ds : list dentry) (env : list req) (r : req)
     | Some d =>
       match nth_error ds d with
       | None => handled rest ds env r
-      | Some e => let '(_, reqs, _) := deliver d e env r in reqs
+      | Some e => if C10.refused (d_st e) (C10.mkreq (q_cseq r) (q_id r) (is_ack r)) then handled rest ds env r
+                  else let '(_, reqs, _) := deliver d e env r in reqs
       end
     end
   end.
